@@ -51,6 +51,7 @@ def jobs_for(pid, tier, seed, binp):
         rc("gen", "gen", 1000000 if big else 50000)
     else:
         rc("rec", "rec", 1000000 if big else 50000)
+        rc("recseq", "recseq", 300000 if big else 15000)
         rc("chk", "chk", 400000 if big else 20000)
         jobs.append(("recenum", ([binp, "recenum", "ndmax=%d" % (7 if big else 4)], {})))
         for w in range(NPROC):
@@ -70,7 +71,8 @@ RULES = {
            "data is not all zero (basis and table items always are); distinct = distinct full parameter tuples incl. content seed.",
     "C03": "rec: rapidcheck cases (api raid_rec / raid_data / direct rec1|rec2|recX variant int8/ssse3/avx2, generator family, "
            "Cauchy or power matrix, nd 1..251, np, sorted failed index sets, parity subsets, size, content); chk: raid_check accept/"
-           "reject and raid_scan on corrupted stripes; recenum: every index set for nd<=ndmax, all np, all decoders; minors: every "
+           "reject and raid_scan on corrupted stripes; recseq: 2-4 decode requests in one process, each derived from the previous one "
+           "(prefix, suffix, one index dropped, other parities, one added, same, unrelated), every one answered exactly; recenum: every index set for nd<=ndmax, all np, all decoders; minors: every "
            "square sub-matrix of the exported matrices up to order `full`, sampled above. Non-trivial: at least one failed data "
            "block (rec), at least one corrupted block (chk); distinct = distinct parameter tuples.",
 }
